@@ -701,11 +701,15 @@ pub fn judge_stored_blobs(case: &AttrCase) -> Vec<(String, String)> {
 }
 
 pub fn cases(tier: Tier) -> Vec<AttrCase> {
-    let names = ["", "a", "é", "a-forty-character-attribute-name-0123456"];
+    // names up to and beyond 1 KiB: readers that treat the first block of a string specially
+    let long_ascii = "n".repeat(1025);
+    let long_multi = "\u{e9}".repeat(700);
+    let names = ["", "a", "é", "a-forty-character-attribute-name-0123456", long_ascii.as_str(), long_multi.as_str()];
+    let _ = tier;
     let mut all: Vec<(String, LV)> = Vec::new();
     let mut reps: Vec<(String, LV)> = Vec::new();
     for t in attr_types() {
-        let a = alphabet(t, Codec::Attributes, tier == Tier::Thorough);
+        let a = alphabet(t, Codec::Attributes, true);
         for (i, v) in a.iter().enumerate() {
             all.push((crate::vals::type_name(t), v.clone()));
             if i < 2 {
@@ -720,7 +724,7 @@ pub fn cases(tier: Tier) -> Vec<AttrCase> {
         }
     }
     // two entries: every value next to every representative, both name orders
-    let pairs: &[(&str, &str)] = &[("a", "é"), ("é", ""), ("", "a"), ("a", "a-forty-character-attribute-name-0123456")];
+    let pairs: &[(&str, &str)] = &[("a", "é"), ("é", ""), ("", "a"), ("a", "a-forty-character-attribute-name-0123456"), (long_ascii.as_str(), long_multi.as_str()), (long_multi.as_str(), "a")];
     for (t1, v1) in &all {
         for (t2, v2) in &reps {
             for (n1, n2) in pairs {
@@ -792,7 +796,7 @@ pub fn check(run: &Run) -> Value {
         "doc_vectors_reproduced_by_spec_codec": vectors,
         "samples": total.samples.iter().map(|s| serde_json::from_str::<Value>(s).unwrap()).collect::<Vec<_>>(),
         "exhaustive": true,
-        "rule": "every attribute map of the bounded enumeration (0 entries; 1 entry: 4 names x every alphabet value of the 19 supported types; 2 entries: every value next to 2 representatives per type; 3 entries over representatives) is (1) encoded and decoded by rbx_types, (2) decoded by an independent decoder written from docs/attributes.md, (3) re-encoded by an independent encoder and decoded by rbx_types; 0/1-entry maps additionally travel through a binary and an XML file as the Attributes property",
+        "rule": "every attribute map of the bounded enumeration (0 entries; 1 entry: 6 names (empty, 1 byte, non-ASCII, 40 bytes, 1025 bytes, 1400 bytes) x every alphabet value (incl. 64 KiB / 200 KB strings) of the 19 supported types; 2 entries: every value next to 2 representatives per type; 3 entries over representatives) is (1) encoded and decoded by rbx_types, (2) decoded by an independent decoder written from docs/attributes.md, (3) re-encoded by an independent encoder and decoded by rbx_types; 0/1-entry maps additionally travel through a binary and an XML file as the Attributes property",
     })
 }
 
